@@ -871,18 +871,29 @@ async fn fail_all_pending(inner: &std::sync::Weak<AsyncClientInner>, err: RepeEr
         return;
     };
 
+    // Fail the calls already in flight before touching the writer: its lock
+    // may be held by another caller's write that a stalled peer never lets
+    // finish, and those waiters must not hang behind it.
+    fail_waiters(&inner_ref, &err);
+
     {
         let mut writer = inner_ref.writer.lock().await;
         let _ = writer.shutdown().await;
     }
 
+    // A call registered meanwhile wrote before the shutdown and would wait
+    // for a reader that is gone.
+    fail_waiters(&inner_ref, &err);
+}
+
+fn fail_waiters(inner: &AsyncClientInner, err: &RepeError) {
     let waiters = {
-        let mut pending = lock_pending_map(&inner_ref.pending);
+        let mut pending = lock_pending_map(&inner.pending);
         pending.drain().collect::<Vec<_>>()
     };
 
     for (request_id, sender) in waiters {
-        let _ = sender.send(Err(clone_fatal_error_for_waiter(&err, request_id)));
+        let _ = sender.send(Err(clone_fatal_error_for_waiter(err, request_id)));
     }
 }
 
